@@ -104,6 +104,9 @@ PRIOR = "X:91 Y:92 Z:93 E:94 T:95 B:96 F:97 S:98 A:99.5 C:-99.5"
 PRIOR_EXP = {"X": 91.0, "Y": 92.0, "Z": 93.0, "E": 94.0, "T": 95.0, "B": 96.0, "F": 97.0, "S": 98.0, "A": 99.5, "C": -99.5}
 
 
+PENDING = {"after-alarm": "ALARM:1", "after-error": "error:9", "after-Error": "Error:Printer halted. kill() called!", "after-bang": "!!"}
+
+
 def check_report(text, expected, with_prior, wrap=None):
     """wrap: how the line arrives from printcore's reader ('crlf': with its CR LF terminator, 'space': Marlin's leading blank)."""
     w, cb = new_writer()
@@ -111,6 +114,9 @@ def check_report(text, expected, with_prior, wrap=None):
     if with_prior:
         cb(PRIOR)
         model.update(PRIOR_EXP)
+    if wrap in PENDING:
+        cb(PENDING[wrap])                 # an unsolicited alarm / error reply is pending when the report arrives
+        wrap = None
     cb(text + "\r\n" if wrap == "crlf" else (" " + text + "\n" if wrap == "space" else text))
     model.update(expected)
     problems = []
@@ -131,12 +137,16 @@ def check_report(text, expected, with_prior, wrap=None):
 def _work_single(item):
     fam, text, exp = item
     out = []
-    for with_prior, wrap in ((False, None), (True, None), (True, "crlf"), (False, "space")):
+    for with_prior, wrap in ((False, None), (True, None), (True, "crlf"), (False, "space"), (True, "after-alarm"), (False, "after-error"),
+                             (True, "after-Error"), (False, "after-bang")):
         if wrap == "space" and text.startswith(("ok", "<", "[")):
             continue
         for sig, msg in check_report(text, exp, with_prior, wrap):
             lead = "leading-ok" if text.startswith("ok") else "plain"
-            out.append((f"{fam}:{lead}:{sig}", msg, {"reports": ([PRIOR] if with_prior else []) + [text]}))
+            if wrap in PENDING:
+                lead += ":" + wrap
+            out.append((f"{fam}:{lead}:{sig}", msg, {"reports": ([PRIOR] if with_prior else []) + ([PENDING[wrap]] if wrap in PENDING else []) + [text],
+                                                     "with_prior": with_prior, "wrap": wrap}))
     return out
 
 
@@ -153,6 +163,14 @@ BASIS = [
     ("[PRB:0.000,0.000,0.000:0]", {"X": 0.0, "Y": 0.0, "Z": 0.0}),
     ("echo:busy: processing", {}),
     ("X:9.5", {"X": 9.5}),
+    # lines that are not reports: no reading may change, and later reports still count
+    ("ALARM:1", {}),
+    ("error:9", {}),
+    ("Error:Printer halted. kill() called!", {}),
+    ("!!", {}),
+    ("ok", {}),
+    ("start", {}),
+    ("[MSG:Reset to continue]", {}),
 ]
 
 
@@ -195,13 +213,14 @@ def run(tier, seed):
     for f, _, _ in singles:
         fams[f] = fams.get(f, 0) + 1
     res.coverage = {
-        "evaluations": 4 * len(singles) + len(hists),
+        "evaluations": 8 * len(singles) + len(hists),
         "distinct_nontrivial": len({t for _, t, _ in singles}) + len(states),
         "rule": ("reports generated from structured fields so the expected readings are known without parsing: Marlin position (X,Y,Z,E in all 24 orders + "
                  "Count block with other values), Marlin temperature (with/without leading ok, @ tail, T0 decoy), Grbl status (MPos|WPos, FS, multi-letter "
                  "decoys in every order), [PRB:..]; values from a list incl. -0.0, 0.001, integers; each report is delivered to the receive callback the writer "
-                 "registers on printcore, on a fresh writer and after a prior report that set every letter; plus every sequence of <= "
-                 f"{depth} reports from a 12-report basis against a dict model; distinct = distinct report texts + distinct model states"),
+                 "registers on printcore, on a fresh writer and after a prior report that set every letter, with CR LF / leading blank, and while an unsolicited ALARM:, error:, Error: "
+                 "or !! line is pending; plus every sequence of <= "
+                 f"{depth} lines from a {len(BASIS)}-line basis (12 reports + 7 lines that are not reports: alarm, errors, ok, start, [MSG:..]) against a dict model; distinct = distinct report texts + distinct model states"),
         "exhaustive": True,
         "exhaustive_note": "complete enumeration of the stated generator space; other report syntaxes are not covered",
         "families": fams, "histories": len(hists), "history_states": len(states),
@@ -223,7 +242,7 @@ def replay(body):
     reports = body["replay"]["reports"]
     for fam, text, exp in single_reports("thorough"):
         if text == reports[-1]:
-            problems = check_report(text, exp, len(reports) > 1)
+            problems = check_report(text, exp, body["replay"].get("with_prior", len(reports) > 1), body["replay"].get("wrap"))
             break
     else:
         idx = [next(i for i, b in enumerate(BASIS) if b[0] == r) for r in reports if any(b[0] == r for b in BASIS)]
